@@ -141,7 +141,7 @@ class C10(Check):
                'rxsci/operators/distinct_until_changed.py', 'rxsci/data/lag.py', 'rxsci/data/pad.py', 'rxsci/operators/start_with.py',
                'rxsci/data/batch.py', 'rxsci/data/sort.py']
     REQUIRED_TAGS = ['first', 'last', 'take', 'distinct', 'duc', 'lag', 'pad_start', 'pad_end', 'start_with', 'batch', 'sort',
-                     'plain', 'mux', 'group', 'roll', 'split', 'scale', 'empty', 'has-None', 'len-multiple-of-n']
+                     'plain', 'mux', 'group', 'roll', 'split', 'scale', 'numpy-items', 'negative-values', 'empty', 'has-None', 'len-multiple-of-n']
     REQUIRED_OBSERVED = ['sequences_compared']
 
     def generate(self, rng, tier, shard, nshards):
@@ -181,7 +181,15 @@ class C10(Check):
             ln = rng.choice([n * rng.randint(1, 5) + d for d in (-1, 0, 0, 1)] + [rng.randint(5, 40)])
             ln = max(0, ln)
             seq = [rng.choice(SYMS + [3, 4, 5]) for _ in range(ln)]
-            yield {'op': node, 'mode': mode, 'seq': seq, 'gseed': rng.randrange(1 << 30)}
+            case = {'op': node, 'mode': mode, 'seq': seq, 'gseed': rng.randrange(1 << 30)}
+            if j % 6 == 1 and node[0] != 'sort':
+                # unusual but legal values: negative ints whose hashes collide (-1 / -2), multiples of 2**61-1 (all hash to 0),
+                # bools and floats equal to ints
+                case['seq'] = [rng.choice([-1, -2, -1, -2, 0, 2 ** 61 - 1, 2 * (2 ** 61 - 1), 1, 1.0, True, None, -3]) for _ in range(ln)]
+            elif j % 6 == 3 and node[0] in ('distinct', 'duc', 'first', 'last', 'take', 'lag', 'batch') and node[1:2] not in (['isnone'], ['par']):
+                case['conv'] = 'np'              # numpy.int64 items (== / != return numpy.bool_)
+                case['seq'] = [x for x in case['seq'] if x is not None]
+            yield case
 
     def evaluate(self, case):
         out = Outcome()
@@ -198,6 +206,12 @@ class C10(Check):
             out.nontrivial = True
         if len(seq) >= 500:
             out.tags.append('scale')
+        if case.get('conv') == 'np':
+            import numpy
+            seq = [numpy.int64(x) for x in seq]
+            out.tags.append('numpy-items')
+        if any(isinstance(x, int) and not isinstance(x, bool) and x < 0 for x in seq):
+            out.tags.append('negative-values')
         if name == 'sort':
             # (key, tag) pairs: equal keys keep their source order iff the sort is stable
             seq = [((x or 0), j) for j, x in enumerate(seq)]
